@@ -17,7 +17,7 @@ for f in sorted(glob.glob(V + "/seeded/FREE*/meta.json")):
     free.append("| %s | %s | %s | %d |" % (sid, (m.get("breaks") or "").replace("|", "/").replace("\n", " ")[:230], ", ".join(hit) or "NONE", len(c) - len(hit)))
 new = """## 10. Seeded changes: which checks catch which changes
 
-**Property rounds.**  In eight rounds, fresh sub-agents were given only a property's text and a scratch worktree (nothing
+**Property rounds.**  In nine rounds, fresh sub-agents were given only a property's text and a scratch worktree (nothing
 from `/verif`) and asked for two independent changes each that break the property while compiling and passing the
 pinned suite, needing something specific to manifest, with a demonstration; rounds 2 and 3 had to differ in site and
 kind from the earlier ones and were steered towards the glue between the kernels; round 4 was steered OUTSIDE the
@@ -28,7 +28,7 @@ rounds 6 and 7 at NON-DEFAULT CONFIGURATION AND FEATURE INTERACTION (the change 
 value, override, input-file variant or pair of features that the shipped projects do not use; every shipped run stays
 bit-identical); round 8 at ARITHMETIC, TYPE AND INDEX SUBTLETIES inside a realistic clean-up (integer versus floating-point
 division, truncation versus rounding, a moved parenthesis, < versus <=, a unit factor, 0- versus 1-based index, a value
-taken before versus after an update, a shadowed variable, a copied array, a named integer type missed by a type switch).  Each change was confirmed by the
+taken before versus after an update, a shadowed variable, a copied array, a named integer type missed by a type switch); round 9 (all twenty properties, two changes each) at TWO COOPERATING SITES that each look fine alone (a producer and a consumer changed to slightly different conventions, a reset moved relative to its reader, a value derived in one place and not refreshed by another) and at MULTI-STEP HISTORIES (harvest followed by the next crop, a year roll-over, the second run of a session re-using cached data, a groundwater change followed by a return, a failing batch line followed by good ones, a measurement day followed by fertilisation).  Each change was confirmed by the
 lead (`lib/seedtest.py`: applies, compiles, pinned suite passes, demonstration passes without / fails with) in a scratch
 worktree and run against the property's check (`VERIF_REPO=<worktree> ./check <id>`).  A change that got through was
 sent to the owner of the check with the instruction to strengthen model, tie and oracle — never to special-case the
